@@ -341,3 +341,34 @@ func watchForLockDeadlock(progress func() int64, quiet time.Duration, where func
 		}
 	}()
 }
+
+var storageFrame = regexp.MustCompile(`facebookincubator/dns/dnsrocks/(dnsdata/rdb|cgo-rocksdb|db)\.`)
+
+// storageGoroutines returns the normalised stacks of goroutines that are blocked (chan/select/lock) inside the
+// storage packages.
+func storageGoroutines() []string {
+	buf := make([]byte, 16<<20)
+	buf = buf[:runtime.Stack(buf, true)]
+	var out []string
+	for _, g := range strings.Split(string(buf), "\n\n") {
+		m := gHeader.FindStringSubmatch(g)
+		own := g
+		if i := strings.Index(own, "\ncreated by "); i >= 0 {
+			own = own[:i]
+		}
+		if m == nil || !storageFrame.MatchString(own) {
+			continue
+		}
+		st := m[2]
+		if !(strings.HasPrefix(st, "chan ") || st == "select" || strings.HasPrefix(st, "sync.") || st == "semacquire") {
+			continue
+		}
+		nl := strings.IndexByte(own, '\n')
+		if nl < 0 {
+			continue
+		}
+		out = append(out, "["+st+"]\n"+gAddrs.ReplaceAllString(own[nl+1:], ""))
+	}
+	sort.Strings(out)
+	return out
+}
